@@ -43,6 +43,33 @@ def run (ctx : Algo.Ctx) (op : String) (args impl : List String) : Outcome :=
     { model := if okOutcome then implS else full, same := some okOutcome,
       spec := if okOutcome then specOk else specFail "[C13] a scan returned something other than the complete result of its snapshot or a cancellation",
       tags := ["scan"] ++ (if ls.length > 100 then ["multichunk", "nt"] else []) ++ (if cancel != "0" then ["cancel"] else []) }
+  | "conc", [lines, _qs, sort, tac, _yield] =>
+    let ls := parseStrList lines
+    let recs := if impl == ["_"] then [] else ((" ".intercalate impl).splitOn ";").map (·.splitOn "~")
+    -- every search answers for exactly the prefix of the input its snapshot held
+    let check (r : List String) : Option String :=
+      match r with
+      | [q, cnt, idx, frozen] =>
+        let n := cnt.toNat!
+        let want := results ctx (ls.take n) (parseNatList q) (sort == "1") (tac == "1")
+        if frozen != "1" then some s!"[C13] the snapshot of {n} items changed while it was being searched"
+        else if n > ls.length then some "[C13] a snapshot holds more items than were ever pushed"
+        else if parseNatList idx != want then
+          some s!"[C13] a search over a snapshot of {n} items published something other than the filter of those {n} items (query {q})"
+        else none
+      | _ => some "[C13] unparsable answer"
+    let bad := recs.filterMap check
+    let finals := recs.filter fun r => r.getD 1 "" == toString ls.length
+    { model := " ".intercalate impl, same := some true,
+      spec := match bad with
+        | b :: _ => specFail b
+        | [] => if recs.isEmpty then specFail "[C13] no search completed" else specOk,
+      tags := ["conc", "nt"] ++ (if recs.length > finals.length then ["during-load"] else []) ++
+        (if recs.any (fun r => let n := (r.getD 1 "0").toNat!; n % 100 != 0 ∧ n < ls.length) then ["partial-last-chunk"] else []) }
+  | "race", [n] =>
+    { model := "0", spec := if impl == ["0"] then specOk else
+        specFail s!"[C13] Go's race detector reported {" ".intercalate impl} data race(s) while {n} concurrent loader/matcher cases ran",
+      tags := ["race-detector", "nt"] }
   | _, _ => { model := "bad-op" }
 
 end Driver.Matcher
